@@ -504,6 +504,45 @@ Arguments intact_prefix {R}.
 Arguments failure {R}.
 
 (* ------------------------------------------------------------------------------------------------ *)
+(* iter_timestamped_records on a concrete record (names, which fields are datetimes, values, metadata)
+   -- a concrete instance of [expand], used to state what --multi-timestamp does to the reserved fields.
+   extend_record(TimestampRecord(value, name), [rec]): the fields of the timestamp record come first, fields of
+   the same name in rec are ignored, and the values come from ChainMap(ts_record, rec): the timestamp record's
+   own reserved fields (_source = _classification = None, _generated = now) take precedence. *)
+
+Inductive cval := VId (n : N) | VText (s : string).
+Record cfield := { cf_name : string; cf_dt : bool; cf_val : cval }.
+Record cmeta := { m_source : option string; m_class : option string; m_generated : N }.
+Record crec := { c_name : string; c_fields : list cfield; c_meta : cmeta }.
+
+Definition is_ts_name (n : string) : bool := String.eqb n "ts" || String.eqb n "ts_description".
+
+Definition expand_one (m : cmeta) (r : crec) (f : cfield) : crec :=
+  {| c_name := c_name r;
+     c_fields := {| cf_name := "ts"; cf_dt := true; cf_val := cf_val f |}
+                 :: {| cf_name := "ts_description"; cf_dt := false; cf_val := VText (cf_name f) |}
+                 :: filter (fun g => negb (is_ts_name (cf_name g))) (c_fields r);
+     c_meta := m |}.
+
+Definition fresh_meta (now : N) : cmeta := {| m_source := None; m_class := None; m_generated := now |}.
+
+(* as implemented *)
+Definition expand_impl (now : N) (r : crec) : list crec :=
+  match filter cf_dt (c_fields r) with
+  | [] => [r]
+  | dts => map (expand_one (fresh_meta now) r) dts
+  end.
+
+(* as the property wants it: the expanded records keep the record's metadata *)
+Definition expand_spec (r : crec) : list crec :=
+  match filter cf_dt (c_fields r) with
+  | [] => [r]
+  | dts => map (expand_one (c_meta r) r) dts
+  end.
+
+Definition strip_meta (r : crec) : string * list cfield := (c_name r, c_fields r).
+
+(* ------------------------------------------------------------------------------------------------ *)
 (* what the proofs need from the generated facts (all computed) *)
 
 Definition uri_ok (u : string) : bool := no_char "#" u && (no_char "?" u || has_query u).
